@@ -243,7 +243,7 @@ def rule_b(ctx):
             r.violate(key, "known_compatibilities_by_unit(%s) returns set #%s which does not contain %s" % (v, idx, v), kb.loc())
     r.floor("known_compatibilities_by_unit arms", len([1 for v in arms.values() if v is not None]), 26)
     # From<String> / Display
-    fs = prog.one("<grass_compiler::unit::Unit as std::convert::From>::from")
+    fs = prog.one("<grass_compiler::unit::Unit as std::convert::From<std::string::String>>::from")
     from_tab = common.str_match_table(fs)
     disp = common.variant_region_consts(prog.one("<grass_compiler::unit::Unit as std::fmt::Display>::fmt"))
     if not from_tab or not disp:
